@@ -355,8 +355,58 @@ let handle_pv words =
     String.concat " " [hex_of_bytes (PrintfValue.pv_f p); hex_of_bytes (PrintfValue.pv_h p); o (PrintfValue.pv_H p d); o (PrintfValue.pv_P p d)]
   | _ -> "badcase"
 
+(* ---- args <argv hex list> <oracle-valid pairs "name|op|op;..." hex, or ~> <newerxy names hex list or ~>
+   operand validity: the modelled validators decide for numeric tests, -size, -type/-xtype, -printf/-fprintf, -regextype, -mindepth/-maxdepth;
+   for the other primaries the pair must be listed in the oracle table ---- *)
+let str_of_nats l = String.concat "" (Stdlib.List.map (fun c -> String.make 1 (Char.chr (int_of_nat c))) l)
+let handle_args words =
+  match words with
+  | [argv; oracle; nxy] ->
+    let argv = bl argv in
+    let oracle_tbl = Hashtbl.create 64 in
+    Stdlib.List.iter (fun e -> Hashtbl.replace oracle_tbl e true) (if oracle = "~" then [] else split_on ';' oracle);
+    let nxy = Stdlib.List.map hex_of_bytes (bl nxy) in
+    let numeric = ["-links"; "-inum"; "-uid"; "-gid"; "-mtime"; "-atime"; "-ctime"; "-mmin"; "-amin"; "-cmin"] in
+    let utf8_decode (b : Datatypes.nat list) : Datatypes.nat list =
+      (* bytes -> code points (the -printf model works on characters) *)
+      let bs = Array.of_list (Stdlib.List.map int_of_nat b) in
+      let n = Array.length bs in
+      let out = ref [] in
+      let i = ref 0 in
+      while !i < n do
+        let c = bs.(!i) in
+        let (len, init) = if c < 0x80 then (1, c) else if c < 0xE0 then (2, c land 0x1F) else if c < 0xF0 then (3, c land 0x0F) else (4, c land 0x07) in
+        let v = ref init in
+        for k = 1 to len - 1 do if !i + k < n then v := (!v lsl 6) lor (bs.(!i + k) land 0x3F) done;
+        out := nat_of_int !v :: !out; i := !i + len
+      done; Stdlib.List.rev !out in
+    let valid name ops =
+      let nm = str_of_nats name in
+      if ops = [] then true
+      else if Stdlib.List.mem nm numeric then (match ops with [o] -> Numeric.parse_cv_plain o <> None | _ -> false)
+      else if nm = "-size" then (match ops with [o] -> (match Numeric.parse_cv o with Some (_, suf) -> Numeric.unit_bits suf <> None | None -> false) | _ -> false)
+      else if nm = "-type" || nm = "-xtype" then
+        (match ops with [[c]] -> Stdlib.List.exists (fun (k, _) -> k = c) Tables.type_letters | _ -> false)
+      else if nm = "-fprintf" then
+        (match ops with
+         | [file; f] ->
+           Hashtbl.mem oracle_tbl (hex_of_bytes (bytes_of_hex "2d667072696e74") ^ "|" ^ hex_of_bytes file) &&
+           (match Printf.parse (fun c -> Stdlib.List.mem (int_of_nat c) [72; 77; 89; 100; 109; 83; 84; 64]) (S (nat_of_int (Stdlib.List.length f))) (utf8_decode f) with Printf.Ok _ -> true | Printf.Err -> false)
+         | _ -> false)
+      else if nm = "-printf" then (match ops with [f] -> (match Printf.parse (fun c -> Stdlib.List.mem (int_of_nat c) [72; 77; 89; 100; 109; 83; 84; 64]) (S (nat_of_int (Stdlib.List.length f))) (utf8_decode f) with Printf.Ok _ -> true | Printf.Err -> false) | _ -> false)
+      else if nm = "-mindepth" || nm = "-maxdepth" then
+        (match ops with [o] -> let o' = (match o with c :: r when int_of_nat c = 43 && r <> [] -> r | _ -> o) in
+          o' <> [] && Stdlib.List.for_all (fun c -> let x = int_of_nat c in x >= 48 && x <= 57) o' && Stdlib.List.length o' <= 18 | _ -> false)
+      else if nm = "-regextype" then (match ops with [o] -> Stdlib.List.mem (str_of_nats o) ["emacs"; "grep"; "posix-basic"; "posix-extended"; "ed"; "sed"] | _ -> false)
+      else Hashtbl.mem oracle_tbl (String.concat "|" (hex_of_bytes name :: Stdlib.List.map hex_of_bytes ops)) in
+    let newer_xy a = Stdlib.List.mem (hex_of_bytes a) nxy in
+    (match Args.parse_argv valid newer_xy argv with
+     | Expr.Ok _ -> "accept"
+     | Expr.Error -> "reject")
+  | _ -> "badcase"
+
 let handlers : (string * (string list -> string)) list ref =
-  ref [ ("xread", handle_xread); ("xargs", handle_xargs); ("xrepl", handle_xrepl); ("xnorm", handle_xnorm); ("walk", handle_walk); ("expr", handle_expr); ("num", handle_num); ("glob", handle_glob); ("paths", handle_paths); ("delete", handle_delete); ("execm", handle_execm); ("limits", handle_limits); ("entry", handle_entry); ("regex", handle_regex); ("printf", handle_printf); ("pv", handle_pv) ]
+  ref [ ("xread", handle_xread); ("xargs", handle_xargs); ("xrepl", handle_xrepl); ("xnorm", handle_xnorm); ("walk", handle_walk); ("expr", handle_expr); ("num", handle_num); ("glob", handle_glob); ("paths", handle_paths); ("delete", handle_delete); ("execm", handle_execm); ("limits", handle_limits); ("entry", handle_entry); ("regex", handle_regex); ("printf", handle_printf); ("pv", handle_pv); ("args", handle_args) ]
 
 let () =
   try while true do
